@@ -158,6 +158,7 @@ func (ch *Chain) execOracle(e M) (Outcome, bool) {
 			panic(err)
 		}
 		info.L1ClientId = absx.Str(e["client"])
+		info.BridgeConfig.OracleEnabled = absx.Bool(e["oracle"])
 		r := Deliver(f, ch.Ctx, &opchildtypes.MsgSetBridgeInfo{Sender: ch.C.Addr(absx.Str(e["signer"])), BridgeInfo: info})
 		if !r.OK {
 			return Outcome{OK: false, Err: r.ErrString()}, true
